@@ -310,7 +310,9 @@ func (m *mut) textOne(s []byte) (out []byte, shaped bool) {
 		m.note("num=%s", v)
 		return splice(s, sp, []byte(v)), true
 	case k < 67: // prefixes and separators
-		seps := runs(s, func(c byte) bool { return c == ':' || c == '(' || c == ')' || c == ',' || c == '[' || c == ']' || c == '.' || c == ' ' }, 1)
+		seps := runs(s, func(c byte) bool {
+			return c == ':' || c == '(' || c == ')' || c == ',' || c == '[' || c == ']' || c == '.' || c == ' '
+		}, 1)
 		if len(seps) == 0 {
 			m.note("sep+")
 			return append([]byte([]string{"ed25519:", "::", "5::", ":", "0x", "v", "\""}[m.intn(7, "p")]), s...), false
